@@ -37,6 +37,11 @@ func extraTypes() []*lat.Spec {
 		lat.StrSz(1, 1), lat.StrSz(2, 2), lat.StrSz(0, 3), lat.StrSz(4, 4),
 		lat.Enum(false, "a", "b", "true"), lat.Enum(true, "abc", "é"), lat.Enum(true, "a", "b"), lat.Enum(false, ""),
 		lat.Pat(".*"), lat.Pat("^$"), lat.Pat("^a*$"), lat.Pat("b+"),
+		// several expressions, one of them with an inline flag at its top level, in every position: the flag belongs to
+		// that expression only (Pattern is the union of the languages of its expressions, each compiled by itself)
+		lat.Pat("(?i)^yes$", "^no$"), lat.Pat("^no$", "(?i)^yes$"), lat.Pat("(?i)^y", "n$", "^maybe$"), lat.Pat("^maybe$", "(?i)^y", "n$"),
+		lat.Pat("(?s)^a.b$", "^c.d$"), lat.Pat("^c.d$", "(?s)^a.b$"), lat.Pat("(?i:^yes$)", "^no$"), lat.Pat("(?m)^a$", "^b$"), lat.Pat("(?U)^a+", "^b+$"),
+		lat.Pat("^yes$|^no$"), lat.Pat("^(yes", "no)$"),
 		lat.Tup(lat.Int(0, 5), lat.A("String")), lat.TupSz(1, 4, lat.Int(0, 5), lat.A("String")), lat.TupSz(0, 1, lat.Int(0, 5), lat.A("String")),
 		lat.Struct(lat.Member{Name: "a", Kind: 0, T: lat.Int(0, 5)}, lat.Member{Name: "b", Kind: 1, T: lat.A("String")}),
 		lat.Struct(lat.Member{Name: "a", Kind: 0, T: lat.W("Optional", lat.Int(0, 5))}),
@@ -50,6 +55,8 @@ func extraTypes() []*lat.Spec {
 func extraValues() []*lat.VSpec {
 	return []*lat.VSpec{
 		lat.VS(""), lat.VS("é"), lat.VS("éé"), lat.VS("aé€"), lat.VS("A"), lat.VS("ABC"), lat.VS("É"), lat.VS("true"), lat.VS("aaa"), lat.VS("bb"),
+		lat.VS("yes"), lat.VS("YES"), lat.VS("no"), lat.VS("NO"), lat.VS("maybe"), lat.VS("MAYBE"), lat.VS("yN"), lat.VS("Yn"), lat.VS("a\nb"), lat.VS("c\nd"), lat.VS("cxd"),
+		lat.VS("x\na"), lat.VS("x\nb"), lat.VS("aab"), lat.VS("(yes"), lat.VS("no)"),
 		lat.VA(lat.VI(0), lat.VS("x")), lat.VA(lat.VI(0), lat.VS("x"), lat.VS("y")), lat.VA(lat.VI(0), lat.VS("x"), lat.VI(1)), lat.VA(lat.VI(0)), lat.VA(lat.VI(9)), lat.VA(),
 		lat.VH(lat.VS("a"), lat.VI(1)), lat.VH(lat.VS("a"), lat.VI(1), lat.VS("b"), lat.VS("x")), lat.VH(lat.VS("b"), lat.VS("x")), lat.VH(lat.VS("a"), lat.VU()),
 		lat.VH(lat.VS("a"), lat.VI(1), lat.VS("c"), lat.VI(1)), lat.VH(), lat.VH(lat.VI(1), lat.VI(1)), lat.VH(lat.VS("a"), lat.VI(7)),
@@ -119,6 +126,14 @@ func run(c px.Context, cfg *lib.Config, res *lib.Result) {
 	}
 	type tv struct{ t, v int }
 	var inModel []tv
+	ciEnumIn := make([]bool, nT)
+	for t := 0; t < nT; t++ {
+		ciEnumIn[t] = hasCiEnum(u.Dec[t])
+	}
+	nonASCIIIn := make([]bool, nV)
+	for v := 0; v < nV; v++ {
+		nonASCIIIn[v] = valNonASCII(u.VDec[v])
+	}
 	for t := 0; t < nT; t++ {
 		for v := 0; v < nV; v++ {
 			res.Evaluations++
@@ -126,7 +141,11 @@ func run(c px.Context, cfg *lib.Config, res *lib.Result) {
 				res.Count("outside-model")
 				continue
 			}
-			inModel = append(inModel, tv{t, v})
+			// the model folds case for ASCII only (Model/Base.v lower_ascii; Go's strings.ToLower is an oracle beyond it):
+			// a case-insensitive Enum against a value with a non-ASCII string stays with the direct check
+			if !(ciEnumIn[t] && nonASCIIIn[v]) {
+				inModel = append(inModel, tv{t, v})
+			}
 			want, ok := lat.RefDen(u.Dec[t], u.VDec[v], asgImpl)
 			if !ok {
 				res.Count("reference-undefined")
@@ -247,4 +266,44 @@ func replay(c px.Context, cfg *lib.Config, res *lib.Result) {
 			res.Violate(lib.Violation{Clause: "denotation", What: fmt.Sprintf("IsInstance(%s, %s) = %v but the set denotation says %v", t, lat.ValText(v), got, want), Input: in})
 		}
 	}
+}
+
+func hasCiEnum(t *types.VerifTy) bool {
+	if t == nil {
+		return false
+	}
+	if t.K == "Enum" && t.CI {
+		return true
+	}
+	for _, e := range t.Ts {
+		if hasCiEnum(e) {
+			return true
+		}
+	}
+	for _, e := range t.Keys {
+		if hasCiEnum(e) {
+			return true
+		}
+	}
+	return false
+}
+
+func valNonASCII(v *types.VerifVal) bool {
+	if v == nil {
+		return false
+	}
+	for i := 0; i < len(v.S); i++ {
+		if v.S[i] >= 0x80 {
+			return true
+		}
+	}
+	if v.K == "Type" && v.T != nil {
+		return false
+	}
+	for _, e := range v.Vs {
+		if valNonASCII(e) {
+			return true
+		}
+	}
+	return false
 }
